@@ -220,6 +220,77 @@ Arguments x_batch {wire}. Arguments x_meta {wire}. Arguments x_err {wire}. Argum
 Arguments s_url {wire}. Arguments s_obj {wire}. Arguments s_z {wire}.
 Arguments Build_served {wire}.
 
+(* ---- overlapped externalizations ---------------------------------------------------
+   Several externalizeBatchCtx calls in flight at once (concurrent calls returning large
+   results).  Externalization k is four steps: serialize batch k into a buffer, hash the
+   buffer, (zstd only) compress the buffer into fresh bytes, hand bytes to Storage.Upload
+   which copies them.  A schedule is any interleaving of the steps of different k.
+   [pooled = false] is the code: serializeBatchAsIPC writes into a bytes.Buffer of its own,
+   so every externalization owns the bytes it goes on to hash / compress / upload.
+   [pooled = true] is the variant in which the buffer comes from a shared pool and is handed
+   back when serialization returns: the next serialization overwrites the bytes an earlier
+   externalization is still reading.  Kept for the refutation witness only. *)
+Inductive step := SSer (k : nat) | SHash (k : nat) | SComp (k : nat) | SUp (k : nat).
+Definition step_job (s : step) : nat :=
+  match s with SSer k | SHash k | SComp k | SUp k => k end.
+Definition step_eqb (a b : step) : bool :=
+  match a, b with
+  | SSer i, SSer j | SHash i, SHash j | SComp i, SComp j | SUp i, SUp j => Nat.eqb i j
+  | _, _ => false
+  end.
+
+Section Sched.
+  Variable wire : Type.
+  Variable enc : list batch -> wire.
+  Variable comp : wire -> wire.
+  Variable sha : wire -> bytes.
+  Variable pooled : bool.
+  Variable zstd : bool.
+  Variable jb : nat -> batch.                    (* the batch of externalization k *)
+
+  Record jstate := { j_buf : option wire; j_sha : option bytes; j_z : option wire; j_obj : option wire }.
+  Definition j0 : jstate := {| j_buf := None; j_sha := None; j_z := None; j_obj := None |}.
+  Record cstate := { cs_pool : option wire; cs_job : nat -> jstate }.
+  Definition cs0 : cstate := {| cs_pool := None; cs_job := fun _ => j0 |}.
+  Definition upd (f : nat -> jstate) (k : nat) (j : jstate) : nat -> jstate :=
+    fun i => if Nat.eqb i k then j else f i.
+  (* the bytes externalization k reads when it hashes / compresses / uploads *)
+  Definition rd (st : cstate) (k : nat) : option wire :=
+    if pooled then cs_pool st else j_buf (cs_job st k).
+
+  Definition sstep (st : cstate) (s : step) : cstate :=
+    let j := cs_job st (step_job s) in
+    match s with
+    | SSer k =>
+        if pooled then {| cs_pool := Some (enc [jb k]); cs_job := cs_job st |}
+        else {| cs_pool := cs_pool st;
+                cs_job := upd (cs_job st) k {| j_buf := Some (enc [jb k]); j_sha := j_sha j; j_z := j_z j; j_obj := j_obj j |} |}
+    | SHash k =>
+        {| cs_pool := cs_pool st;
+           cs_job := upd (cs_job st) k {| j_buf := j_buf j; j_sha := option_map sha (rd st k); j_z := j_z j; j_obj := j_obj j |} |}
+    | SComp k =>
+        {| cs_pool := cs_pool st;
+           cs_job := upd (cs_job st) k {| j_buf := j_buf j; j_sha := j_sha j; j_z := option_map comp (rd st k); j_obj := j_obj j |} |}
+    | SUp k =>
+        {| cs_pool := cs_pool st;
+           cs_job := upd (cs_job st) k {| j_buf := j_buf j; j_sha := j_sha j; j_z := j_z j;
+                                          j_obj := if zstd then j_z j else rd st k |} |}
+    end.
+  Definition srun (st : cstate) (s : list step) : cstate := fold_left sstep s st.
+
+  (* program order of one externalization *)
+  Definition job_steps (k : nat) : list step :=
+    if zstd then [SSer k; SHash k; SComp k; SUp k] else [SSer k; SHash k; SUp k].
+  Definition proj (k : nat) (s : list step) : list step := filter (fun x => Nat.eqb (step_job x) k) s.
+  (* a schedule of n externalizations: any interleaving that keeps each one's program order *)
+  Definition wf_sched (n : nat) (s : list step) : bool :=
+    forallb (fun x => Nat.ltb (step_job x) n) s
+    && forallb (fun k => list_eqb step_eqb (proj k s) (job_steps k)) (seq 0 n).
+End Sched.
+
+Arguments j_buf {wire}. Arguments j_sha {wire}. Arguments j_z {wire}. Arguments j_obj {wire}.
+Arguments cs_pool {wire}. Arguments cs_job {wire}.
+
 (* ---- the symbolic codec used to run the model ------------------------------ *)
 Inductive swire :=
 | SIpc (bs : list batch)                        (* the IPC stream of these batches *)
@@ -270,11 +341,46 @@ Inductive input :=
 | Round (t : shatbl) (c : option cfg) (b : batch) (size : Z) (side : meta) (up : upscript)
         (sm : sha_mod) (sv : option (swire * bool))
 (* resolve a hand-built (batch, metadata) against a hand-built origin *)
-| Res (t : shatbl) (c : option cfg) (p : batch) (m : meta) (srv : option (served swire)).
+| Res (t : shatbl) (c : option cfg) (p : batch) (m : meta) (srv : option (served swire))
+(* overlapped externalizations of jobs (batch k, storage URL k) under schedule s (zstd or no
+   compression, empty side metadata, threshold 1), then every pointer is resolved against
+   the object stored for it *)
+| Conc (t : shatbl) (z : bool) (v : validator) (jobs : list (batch * bytes)) (s : list step).
+
+Record job_out := {
+  jo_batch : batch; jo_meta : meta;           (* what externalization k returned *)
+  jo_up : list (swire * bool);                (* what the storage ended up holding for it *)
+  jo_res : option res_out }.                  (* resolving that pointer *)
 
 Inductive obs :=
 | ORound (xb : batch) (xm : meta) (xerr : bool) (ups : list (swire * bool)) (res : option res_out)
-| ORes (res : res_out).
+| ORes (res : res_out)
+| OConc (outs : list job_out).
+
+Definition dummy_batch : batch :=
+  {| b_schema := []; b_smeta := []; b_rows := 0; b_vals := []; b_meta := [] |}.
+Definition dummy_out : job_out := {| jo_batch := dummy_batch; jo_meta := []; jo_up := []; jo_res := None |}.
+Definition conc_cfg (z : bool) (v : validator) : cfg :=
+  {| c_storage := true; c_thr := 1; c_comp := if z then Some alg_zstd else None; c_level := 0; c_val := v |}.
+Definition job_batch (jobs : list (batch * bytes)) (k : nat) : batch := fst (nth k jobs (dummy_batch, [])).
+Definition job_url (jobs : list (batch * bytes)) (k : nat) : bytes := snd (nth k jobs (dummy_batch, [])).
+
+Definition conc_job_out (t : shatbl) (z : bool) (v : validator) (jobs : list (batch * bytes))
+           (st : cstate swire) (k : nat) : job_out :=
+  let b := job_batch jobs k in
+  let url := job_url jobs k in
+  let j := cs_job st k in
+  match j_sha j, j_obj j with
+  | Some h, Some o =>
+      {| jo_batch := pointer_batch b; jo_meta := pointer_meta url h; jo_up := [(o, z)];
+         jo_res := Some (sresolve t (Some (conc_cfg z v)) (pointer_batch b) (pointer_meta url h)
+                                  (Some (Build_served url o z))) |}
+  | _, _ => {| jo_batch := b; jo_meta := []; jo_up := []; jo_res := None |}
+  end.
+Definition conc_outs (pooled : bool) (t : shatbl) (z : bool) (v : validator)
+           (jobs : list (batch * bytes)) (s : list step) : list job_out :=
+  let st := srun swire SIpc SZ (ssha t) pooled z (job_batch jobs) (cs0 swire) s in
+  map (conc_job_out t z v jobs st) (seq 0 (length jobs)).
 
 Definition round_srv (up : upscript) (sv : option (swire * bool)) (ups : list (swire * bool))
   : option (served swire) :=
@@ -295,8 +401,15 @@ Definition model_by (carry : bool) (i : input) : obs :=
         (if x_err x then None
          else Some (sresolve t c (x_batch x) (apply_sha sm (x_meta x)) (round_srv up sv (x_up x))))
   | Res t c p m srv => ORes (sresolve t c p m srv)
+  | Conc t z v jobs s => OConc (conc_outs false t z v jobs s)
   end.
 Definition model : input -> obs := model_by true.
+(* the shared-pool variant of the serialization buffer (never the code on main) *)
+Definition model_pooled (i : input) : obs :=
+  match i with
+  | Conc t z v jobs s => OConc (conc_outs true t z v jobs s)
+  | _ => model i
+  end.
 (* before 36fcb9e: the upload did not carry the side metadata *)
 Definition model_legacy : input -> obs := model_by false.
 
@@ -314,6 +427,9 @@ Definition obs_eqb (a b : obs) : bool :=
   | ORound xb xm xe ups r, ORound xb' xm' xe' ups' r' =>
       batch_eqb xb xb' && meta_eqb xm xm' && Bool.eqb xe xe' && ups_eqb ups ups' && opt_eqb res_eqb r r'
   | ORes r, ORes r' => res_eqb r r'
+  | OConc a, OConc b =>
+      list_eqb (fun x y => batch_eqb (jo_batch x) (jo_batch y) && meta_eqb (jo_meta x) (jo_meta y)
+                           && ups_eqb (jo_up x) (jo_up y) && opt_eqb res_eqb (jo_res x) (jo_res y)) a b
   | _, _ => false
   end.
 
@@ -399,7 +515,7 @@ Definition spec_res (t : shatbl) (c : option cfg) (p : batch) (m : meta) (srv : 
      | None => true
      end.
 
-Definition spec_ok (i : input) (o : obs) : bool :=
+Definition spec_ok_seq (i : input) (o : obs) : bool :=
   match i, o with
   | Round t c b size side up sm sv, ORound xb xm xerr ups res =>
       if should_ext c b size then
@@ -447,9 +563,42 @@ Definition spec_ok (i : input) (o : obs) : bool :=
   | _, _ => false
   end.
 
+(* overlapped externalizations: every pointer names its own URL and the checksum of its own
+   raw stream, the object stored for it is the stream of ITS batch (compressed iff
+   configured), and it resolves to exactly its own batch *)
+Definition spec_job (t : shatbl) (z : bool) (b : batch) (url : bytes) (o : job_out) : bool :=
+  batch_eqb (jo_batch o) (pointer_batch b)
+  && opt_eqb beqb (mget (jo_meta o) c30_k_location) (Some url)
+  && opt_eqb beqb (mget (jo_meta o) c30_k_sha) (Some (ssha t (SIpc [b])))
+  && ups_eqb (jo_up o) [((if z then SZ (SIpc [b]) else SIpc [b]), z)]
+  && match jo_res o with Some (ROk b' _) => batch_eqb b' b | _ => false end.
+
+Definition spec_ok (i : input) (o : obs) : bool :=
+  match i, o with
+  | Conc t z v jobs s, OConc outs =>
+      Nat.eqb (length outs) (length jobs)
+      && forallb (fun k => spec_job t z (job_batch jobs k) (job_url jobs k) (nth k outs dummy_out))
+                 (seq 0 (length jobs))
+  | Conc _ _ _ _ _, _ => false
+  | _, OConc _ => false
+  | _, _ => spec_ok_seq i o
+  end.
+
 (* the digest table knows the raw stream (SHA-256 hex is never the empty string) *)
 Definition digest_ok (i : input) : bool :=
   match i with
   | Round t _ b _ side _ _ _ => nonempty (ssha t (SIpc [with_side b side]))
   | Res _ _ _ _ _ => true
+  | Conc t _ _ jobs _ => forallb (fun j => nonempty (ssha t (SIpc [fst j]))) jobs
+  end.
+
+(* what the overlapped runs are quantified over: a schedule that keeps every externalization's
+   program order, batches with rows that are not tagged as logs, accepted non-empty URLs *)
+Definition conc_ok (i : input) : bool :=
+  match i with
+  | Conc t z v jobs s =>
+      wf_sched z (length jobs) s
+      && forallb (fun j => negb (b_rows (fst j) =? 0) && negb (mhas (b_meta (fst j)) c30_k_log_level)
+                           && nonempty (snd j) && url_ok v (snd j)) jobs
+  | _ => true
   end.
